@@ -1162,6 +1162,23 @@ def flat_image_histories(S, text_template, tier):
     return hs
 
 
+def object_pretty_histories(S, starts, rng):
+    """an embedded object's XML part (Object N/content.xml ...: outside the main names) fetched with Document.get_part and EDITED in
+    memory, then a PRETTY save before any plain save (zip buffer, zip path, folder), a plain save of the same memory, reopen"""
+    hs = []
+    objs = [s_ for s_ in S if s_.endswith("chart.odt")]
+    sts = [(dict(st), True) for st in starts[:2]] + [(dict(op="open", src=s_, buf=b), False) for s_ in objs for b in (False, True)]
+    R = lambda: rng.randrange(1 << 30)
+    for st, gen in sts:
+        pre = [dict(op="addobject", r=1)] if gen else []
+        for pk, tg, pty in (("zip", "buf", True), ("zip", "path", True), ("folder", "path", True), ("folder", "path", None)):
+            SP = dict(op="save", packaging=pk, target=tg, pretty=pty)
+            hs.append([dict(st)] + pre + [dict(op="editobj", r=R()), dict(SP), dict(op="save", packaging="zip", target="buf", pretty=False),
+                       dict(op="editobj", r=R()), dict(op="editobj", r=R()), dict(SP), dict(op="reopen", r=3), dict(op="touch", r=R()), dict(op="editobj", r=R()),
+                       dict(op="save", packaging="zip", target="buf", pretty=True)])
+    return hs
+
+
 def resave_histories(starts, rng):
     """save sequences with edits in between made through handles obtained BEFORE the earlier save (the cached doc.body, a held
     element, a part object fetched once): every later save - pretty or plain, zip or folder - writes the memory of that moment"""
@@ -1228,6 +1245,23 @@ def flat_image_histories(S, text_template, tier):
     for pk in ("zip", "folder"):
         hs.append([dict(op="new", src=text_template, template="text"), dict(op="frame", r=7), dict(op="frame", r=8),
                    dict(op="save", packaging=pk, target="path", pretty=False), dict(op="reopen", r=1), FX_(None), FX_(False)])
+    return hs
+
+
+def object_pretty_histories(S, starts, rng):
+    """an embedded object's XML part (Object N/content.xml ...: outside the main names) fetched with Document.get_part and EDITED in
+    memory, then a PRETTY save before any plain save (zip buffer, zip path, folder), a plain save of the same memory, reopen"""
+    hs = []
+    objs = [s_ for s_ in S if s_.endswith("chart.odt")]
+    sts = [(dict(st), True) for st in starts[:2]] + [(dict(op="open", src=s_, buf=b), False) for s_ in objs for b in (False, True)]
+    R = lambda: rng.randrange(1 << 30)
+    for st, gen in sts:
+        pre = [dict(op="addobject", r=1)] if gen else []
+        for pk, tg, pty in (("zip", "buf", True), ("zip", "path", True), ("folder", "path", True), ("folder", "path", None)):
+            SP = dict(op="save", packaging=pk, target=tg, pretty=pty)
+            hs.append([dict(st)] + pre + [dict(op="editobj", r=R()), dict(SP), dict(op="save", packaging="zip", target="buf", pretty=False),
+                       dict(op="editobj", r=R()), dict(op="editobj", r=R()), dict(SP), dict(op="reopen", r=3), dict(op="touch", r=R()), dict(op="editobj", r=R()),
+                       dict(op="save", packaging="zip", target="buf", pretty=True)])
     return hs
 
 
